@@ -120,11 +120,16 @@ ActiveTensors(T) == {t \in T : TensorWeight(T, t) # 0}
 
 \* points of a nested rule covered by a lower tensor set: the level vector of the point is a tensor
 LevelVec(fam, rule, order, p) == [j \in 1..Len(p) |-> PointLevel(fam, rule, order, p[j])]
-NestedPoints(fam, rule, order, T, d) ==
-    IF T = {} THEN {}
-    ELSE LET maxl == MaxEntry(T)
-             maxp == LevelPoints(fam, rule, order, maxl) - 1
-         IN {p \in Cube(d, maxp) : LevelVec(fam, rule, order, p) \in T}
+\* point indexes that first appear on level l
+LevelRange(fam, rule, order, l) == (IF l = 0 THEN 0 ELSE LevelPoints(fam, rule, order, l - 1)) .. (LevelPoints(fam, rule, order, l) - 1)
+\* cartesian product of up to four index sets as tuples
+ProdSets(R) == CASE Len(R) = 1 -> {<<a>> : a \in R[1]}
+                 [] Len(R) = 2 -> {<<a, b>> : a \in R[1], b \in R[2]}
+                 [] Len(R) = 3 -> {<<a, b, c>> : a \in R[1], b \in R[2], c \in R[3]}
+                 [] Len(R) = 4 -> {<<a, b, c, e>> : a \in R[1], b \in R[2], c \in R[3], e \in R[4]}
+\* the points that belong to tensor t and to no smaller tensor
+DeltaOf(fam, rule, order, t) == ProdSets([j \in 1..Len(t) |-> LevelRange(fam, rule, order, t[j])])
+NestedPoints(fam, rule, order, T, d) == UNION {DeltaOf(fam, rule, order, t) : t \in T}
 
 \* polynomial space spanned / integrated: union over tensors of the boxes 0..exact(t_j)
 PolySpace(fam, rule, T, d, interp) ==
